@@ -436,6 +436,47 @@ class Suite:
                 if pos != len(scal):
                     self.diverge(family, 'jump draws consumed', str(x), pos, len(scal))
 
+    def sphere_jump(self, family, p0, x):
+        """`_new_point` and `_rotmat` of the solid-angle families against the model."""
+        names = list(p0.parameters)
+        for _ in range(4):
+            u1, u2 = self.rng.random(), self.rng.random()
+            p = copy.deepcopy(p0)
+            plan = _PairPlan(u1, u2)
+            p._verif_gen = Q.Gen(plan)
+            phi, theta = p._new_point
+            self.cov['jumps'] += 1
+            twopi = 2 * numpy.pi
+            ans = self.drv.ask('jump vmfpoint kappa=%s norm=%s expk=%s twopi=%s u1=%s u2=%s' % (
+                fr(p.kappa), fr(p.norm), fr(numpy.exp(p.kappa)), fr(twopi), fr(u1), fr(u2)))
+            toks = dict(t.split('=', 1) for t in ans.split()[1:]) if ans.startswith('jump') else {}
+            if not toks:
+                self.diverge(family, 'driver', 'vmfpoint', ans, (phi, theta))
+                return
+            mphi = float(Fraction(toks['phi']))
+            mtheta = float(numpy.arccos(numpy.log(float(Fraction(toks['logarg']))) / p.kappa))
+            calls = p._verif_gen.calls
+            if not (close(mphi, float(phi), 1e-12) and close(mtheta, float(theta), 1e-9)
+                    and len(calls) == 1 and calls[0][0] == 'random'):
+                self.diverge(family, 'new point (inverse cdf)', ans, (mphi, mtheta), (float(phi), float(theta), calls))
+                return
+            # rotation
+            mu = p._spherical2cartesian(float(x[names[0]]), float(x[names[1]]), convert=True)
+            xi = p._spherical2cartesian(float(phi), float(theta))
+            real = numpy.matmul(p._rotmat(mu), xi)
+            beta = numpy.arccos(mu[2])
+            ac = numpy.arccos(mu[0] / numpy.sqrt(mu[0] ** 2 + mu[1] ** 2))
+            g0 = self.drv.ask('jump vmfrot mu1=%s acos=%s twopi=%s cb=1 sb=0 cg=1 sg=0 xi=0,0,1' % (fr(mu[1]), fr(ac), fr(twopi)))
+            gamma = float(Fraction(dict(t.split('=', 1) for t in g0.split()[1:])['gamma']))
+            ans = self.drv.ask('jump vmfrot mu1=%s acos=%s twopi=%s cb=%s sb=%s cg=%s sg=%s xi=%s' % (
+                fr(mu[1]), fr(ac), fr(twopi), fr(numpy.cos(beta)), fr(numpy.sin(beta)), fr(numpy.cos(gamma)),
+                fr(numpy.sin(gamma)), frl(xi)))
+            out = [float(Fraction(v)) for v in dict(t.split('=', 1) for t in ans.split()[1:])['out'].split(',')]
+            self.br('sphere rotation: mu[1] %s 0' % ('<' if mu[1] < 0 else '>='))
+            if not all(abs(a - b) <= 1e-12 for a, b in zip(out, real)):
+                self.diverge(family, 'rotation of the drawn point', ans, out, [float(v) for v in real])
+                return
+
     def eigen_jump(self, family, p0, x):
         names = list(p0.parameters)
         p = copy.deepcopy(p0)
@@ -469,6 +510,14 @@ class Suite:
         if not all(close(a, b, 1e-12) for a, b in zip(mo, ro)) or nmodel != len(draws):
             self.diverge(family, 'jump output / draws consumed', req, (mo, nmodel), (ro, len(draws)))
         return p, out
+
+
+class _PairPlan:
+    def __init__(self, u1, u2):
+        self.pair = (u1, u2)
+
+    def u2(self):
+        return self.pair
 
 
 class _ListPlan:
@@ -560,6 +609,9 @@ def run_instance(S, family, p0, names, doms, kind, exhaustive):
     S.cov['sequences'] += 1
     for xi, given in pairs[:14] + pairs[:3]:
         S.query(family, p0, xi, given)
+    if family in Q.SPHERE:
+        S.sphere_jump(family, p0, pts[0])
+        S.sphere_jump(family, p0, pts[1])
     if family not in Q.SPHERE:
         S.jump_checks(family, p0, pts[0], 4)
         if kind in ('box', 'angle'):
